@@ -5,9 +5,9 @@
    Regex literals are parsed into Gen/Regex.v's AST; `option` around a result type: None = a panic. *)
 From CV Require Import Model.Base Gen.RustStr Gen.RustVec Gen.RustIter Gen.Regex Gen.RegexRt.
 
-(* ESC_A = ([rp]\d* )\. *)
+(* ESC_A = \b(r\d*|p\d* )\. *)
 Definition gen_esc_a : regex :=
- (RCat (RGroup 1 (RCat (RSet false [IChar "r"%char; IChar "p"%char]) (RStar true (RSet false [IDigit])))) (RChar "."%char)).
+ (RCat RWordB (RCat (RGroup 1 (RAlt (RCat (RChar "r"%char) (RStar true (RSet false [IDigit]))) (RCat (RChar "p"%char) (RStar true (RSet false [IDigit]))))) (RChar "."%char))).
 
 (* ESC_C = (\s*'[^']*'?\s*|\s*[^,]* ) *)
 Definition gen_esc_c : regex :=
